@@ -861,7 +861,9 @@ def image_item(draw, idx, recipe, slot=None):
         h = _word(rnd)
     elif kind == "collide":
         h = rnd.choice([b"Im%d" % idx, b"pic", _word(rnd, 1, 3)])
-        names = [h.decode() + ext] + [h.decode() + ".%d%s" % (k, ext) for k in range(rnd.choice([0, 1, 2, 3]))]
+        # (now and then more numbered names are taken than any fixed number of attempts would try)
+        names = [h.decode() + ext] + [h.decode() + ".%d%s" % (k, ext)
+                                      for k in range(rnd.choice([0, 1, 2, 3, 1005 if rnd.random() < 0.15 else 2]))]
         for nm in names:
             recipe["out"].append([nm, b"PRE:" + nm.encode()])
     else:
